@@ -185,7 +185,9 @@ func outURI(t *taskRun, u *sipsp.PsipURI, buf []byte) {
 // direct runs one direct-call task.
 func (t *taskRun) direct() {
 	s := t.spec
-	a, b := []byte(s.A), []byte(s.B)
+	// inputs live in slices of exactly their length (no spare capacity behind them)
+	a := append(make([]byte, 0, len(s.A)), s.A...)
+	b := append(make([]byte, 0, len(s.B)), s.B...)
 	switch s.Fn {
 	case "GetHdrType":
 		t.out(int64(sipsp.GetHdrType(a)))
@@ -253,15 +255,16 @@ func (t *taskRun) direct() {
 	case "LstEq":
 		// parse with caller arrays of capacity N3, then compare the lists
 		var l1, l2 sipsp.URIParamsLst
-		l1.Init(make([]sipsp.URIParam, s.N3))
-		l2.Init(make([]sipsp.URIParam, s.N3))
+		c1, c2 := s.N3%8, (s.N3/8)%8 // the two lists need not have arrays of the same size
+		l1.Init(make([]sipsp.URIParam, c1))
+		l2.Init(make([]sipsp.URIParam, c2))
 		f := sipsp.POptTokURIParamF | sipsp.POptInputEndF
 		_, _, e1 := sipsp.ParseAllURIParams(a, clampOffs(s.N1, len(a)), &l1, f)
 		_, _, e2 := sipsp.ParseAllURIParams(b, clampOffs(s.N2, len(b)), &l2, f)
 		t.out(int64(e1), int64(e2), b2i(sipsp.URIParamsLstEq(&l1, a, &l2, b)))
 		var h1, h2 sipsp.URIHdrsLst
-		h1.Init(make([]sipsp.URIHdr, s.N3))
-		h2.Init(make([]sipsp.URIHdr, s.N3))
+		h1.Init(make([]sipsp.URIHdr, c1))
+		h2.Init(make([]sipsp.URIHdr, c2))
 		g := sipsp.POptTokURIHdrF | sipsp.POptInputEndF
 		_, _, e1 = sipsp.ParseAllURIHdrs(a, clampOffs(s.N1, len(a)), &h1, g)
 		_, _, e2 = sipsp.ParseAllURIHdrs(b, clampOffs(s.N2, len(b)), &h2, g)
